@@ -11,6 +11,7 @@ import (
 	"net/http"
 	"net/url"
 	"path"
+	"strings"
 
 	"github.com/friendsofgo/errors"
 	"github.com/pquerna/otp"
@@ -263,7 +264,7 @@ func (t *TOTP) PostConfirm(w http.ResponseWriter, r *http.Request) error {
 	}
 
 	totpCodeValues := MustHaveTOTPCodeValues(validator)
-	inputCode := totpCodeValues.GetCode()
+	inputCode := strings.TrimSpace(totpCodeValues.GetCode())
 
 	ok = totp.Validate(inputCode, totpSecret)
 	if !ok {
@@ -486,7 +487,8 @@ func (t *TOTP) validate(r *http.Request) (User, string, error) {
 		return user, t.Localizef(r.Context(), authboss.TxtSuccess), nil
 	}
 
-	input := totpCodeValues.GetCode()
+	// The totp library ignores surrounding whitespace, so the repeat check must too
+	input := strings.TrimSpace(totpCodeValues.GetCode())
 
 	if oneTime, ok := user.(UserOneTime); ok {
 		oldCode := oneTime.GetTOTPLastCode()
